@@ -406,6 +406,11 @@ def fn(name: str, *args) -> Node:
                 return const(Fraction(rn, rd))
     if name == "abs" and len(args) == 1 and args[0].op == "const":
         return const(abs(args[0].payload))
+    if len(args) == 1 and args[0].op == "const" and args[0].payload == 0:
+        if name in ("sin", "tan", "sinh", "tanh", "atan", "asin", "atanh", "asinh"):
+            return ZERO
+        if name in ("cos", "cosh"):
+            return ONE
     return _mk("fn", (name, args))
 
 
